@@ -509,6 +509,121 @@ pub fn utf8_stream(rng: &mut Rng) -> (String, Vec<u8>) {
     }
 }
 
+
+/// a digit run of 10^3 .. 10^5 digits ("arbitrarily long numeric parameters")
+pub fn long_num(rng: &mut Rng, max_pow: u32) -> String {
+    let len = match rng.below(4) {
+        0 => 1000 + rng.below(200) as usize,
+        1 => 1024 + rng.below(3) as usize,
+        2 => 4096 + rng.below(70000 / 4) as usize,
+        _ => 10usize.pow(3 + rng.below((max_pow - 2) as u64) as u32),
+    };
+    let lead = *rng.pick(&[b'0', b'1', b'9', b'0']);
+    let mut s = String::with_capacity(len);
+    s.push(lead as char);
+    for _ in 1..len {
+        s.push((b'0' + rng.below(10) as u8) as char);
+    }
+    s
+}
+
+/// streams that exceed every fixed-size assumption: very long parameters, multi-KB unterminated strings,
+/// more than a thousand items
+pub fn long_stream(rng: &mut Rng, kind: Kind, max_pow: u32) -> (String, Vec<u8>) {
+    let s = |x: String| x.into_bytes();
+    match rng.below(if kind == Kind::Command { 3 } else { 8 }) {
+        0 => {
+            // SGR with a huge parameter
+            let n = long_num(rng, max_pow);
+            ("long:sgr-param".into(), s(format!("\x1b[1;{n};38;2;{};2;3mX", long_num(rng, 3))))
+        }
+        1 => {
+            let mut out = Vec::new();
+            for _ in 0..(1100 + rng.below(900)) {
+                if kind == Kind::Command {
+                    if rng.chance(1, 4) { out.extend(b"\x1b[1m") } else { out.extend(utf8_char(rng)) }
+                } else {
+                    out.extend(piece(rng).1);
+                }
+            }
+            ("long:many-items".into(), out)
+        }
+        2 => {
+            // long failing CSI: thousands of parameter bytes, then a byte that kills it (everything is re-scheduled)
+            let mut out = b"\x1b[".to_vec();
+            for _ in 0..(1500 + rng.below(3000)) {
+                out.push(*rng.pick(b"0123456789;:"));
+            }
+            out.push(*rng.pick(b" !\"x\x1b\x80"));
+            out.extend(b"\x1b[5;6R");
+            ("long:failing-csi".into(), out)
+        }
+        3 => {
+            let n = long_num(rng, max_pow);
+            let m = long_num(rng, 3);
+            match rng.below(5) {
+                0 => ("long:cursor".into(), s(format!("\x1b[{n};{m}R"))),
+                1 => ("long:mouse".into(), s(format!("\x1b[<{m};{n};7{}", rng.pick(&["m", "M"])))),
+                2 => ("long:kitty-key".into(), s(format!("\x1b[{n};{m}u"))),
+                3 => ("long:size".into(), s(format!("\x1b[8;{n};1t\x1b[4;2;{m}t"))),
+                _ => ("long:device-attrs".into(), s(format!("\x1b[?{n};{m};0c"))),
+            }
+        }
+        4 => {
+            // multi-KB unterminated string sequence, followed by more input (or by nothing)
+            let head: &[u8] = *rng.pick(&[b"\x1b]4;1;rgb:".as_slice(), b"\x1bP1$r", b"\x1bP1+r", b"\x1b_Gi=31;", b"\x1b[200~", b"\x1b]11;"]);
+            let mut out = head.to_vec();
+            let n = 2048 + rng.below(14000);
+            for _ in 0..n {
+                out.push(match rng.below(3) {
+                    0 => rng.range(0x20, 0x7e) as u8,
+                    1 => *rng.pick(b"0123456789abcdef;=/"),
+                    _ => rng.range(0x80, 0xff) as u8,
+                });
+            }
+            match rng.below(3) {
+                0 => {}
+                1 => out.extend(b"\x1b[1;1R"),
+                _ => out.extend(b"\x1bxyz"),
+            }
+            ("long:unterminated".into(), out)
+        }
+        5 => {
+            // the same, terminated: a multi-KB OSC / DECRPSS / paste / kitty response
+            let (head, tail): (&[u8], &[u8]) = *rng.pick(&[
+                (b"\x1b]10;".as_slice(), b"\x07".as_slice()), (b"\x1bP1$r", b"m\x1b\\"), (b"\x1b[200~", b"\x1b[201~"), (b"\x1b_Gi=7;", b"\x1b\\"),
+            ]);
+            let mut out = head.to_vec();
+            for _ in 0..(2048 + rng.below(6000)) {
+                out.push(*rng.pick(b"0123456789;:abcdefXYZ /#"));
+            }
+            out.extend(tail);
+            ("long:terminated".into(), out)
+        }
+        6 => {
+            // termcap with thousands of hex pairs, kitty image with a huge id
+            if rng.chance(1, 2) {
+                let mut x = "\x1bP1+r".to_string();
+                for i in 0..(600 + rng.below(600)) {
+                    if i > 0 && rng.chance(1, 8) {
+                        x.push(';');
+                    }
+                    x.push_str(&format!("{:02x}", rng.range(0x30, 0x7a)));
+                    if rng.chance(1, 16) {
+                        x.push('=');
+                        x.push_str("41");
+                    }
+                }
+                x.push_str("\x1b\\");
+                ("long:termcap".into(), s(x))
+            } else {
+                ("long:kitty-image".into(), s(format!("\x1b_Gi={},p={};OK\x1b\\", long_num(rng, max_pow), long_num(rng, 3))))
+            }
+        }
+        _ => ("long:osc-index".into(), s(format!("\x1b]4;{};rgb:ff/00/00\x07", long_num(rng, max_pow)))),
+    }
+}
+
 /// partitions of a stream: whole, byte-wise, and `extra` random ones with empty reads
 pub fn partitions(rng: &mut Rng, len: usize, extra: usize) -> Vec<Vec<usize>> {
     let mut out = vec![vec![len], if len == 0 { vec![0, 0] } else { vec![1; len] }];
@@ -546,7 +661,7 @@ pub fn corners() -> Vec<(Kind, &'static str, Vec<u8>)> {
         b"\x1b[0;0R", b"\x1b[0;1R", b"\x1b[1;0R", b"\x1b[1;5R", b"\x1b[2;5R", b"\x1b[18446744073709551615;18446744073709551616R",
         b"\x1b[99999999999999999999;1R", b"\x1b[4294967296;4294967297R",
         b"\x1b[u", b"\x1b[;u", b"\x1b[:u", b"\x1b[;;u", b"\x1b[?u", b"\x1b[?0u", b"\x1b[?99999999999999999999u",
-        b"\x1b[97u", b"\x1b[97;u", b"\x1b[97;5u", b"\x1b[97;4294967298u", b"\x1b[97;18446744073709551617u", b"\x1b[97;1:0u", b"\x1b[97;1:1u",
+        b"\x1b[97u", b"\x1b[97;u", b"\x1b[97;5u", b"\x1b[97;4294967296u", b"\x1b[97;4294967297u", b"\x1b[97;4294967298u", b"\x1b[97;18446744073709551617u", b"\x1b[97;1:0u", b"\x1b[97;1:1u",
         b"\x1b[55296u", b"\x1b[1114112u", b"\x1b[4294967393u", b"\x1b[18446744073709551713u", b"\x1b[57376u", b"\x1b[57398u", b"\x1b[57344u",
         b"\x1b[38;2;256;0;0m", b"\x1b[38;2;0;256;0m", b"\x1b[38;2;0;0;256m", b"\x1b[38:2:256:0:0m", b"\x1b[38:2::0:0:256m",
         b"\x1b[48;2;1;2;511m", b"\x1b[58;2;18446744073709551616;2;3m", b"\x1b[38;5;256m", b"\x1b[38:5:4294967296m", b"\x1b[38;2;1;2;3;4m",
